@@ -148,3 +148,22 @@ func Dial(ctx context.Context, network, addr string) (net.Conn, error, bool) {
 	}
 	return nil, nil, false
 }
+
+// RWMutex is a [sync.RWMutex] whose read-lock acquisitions are scheduling
+// points: "mx.rlock" before the lock is taken, "mx.runlock" after it is given
+// back (the caller holds this lock at neither of them).
+type RWMutex struct {
+	sync.RWMutex
+}
+
+// RLock locks m for reading.
+func (m *RWMutex) RLock() {
+	At("mx.rlock")
+	m.RWMutex.RLock()
+}
+
+// RUnlock undoes a single RLock call.
+func (m *RWMutex) RUnlock() {
+	m.RWMutex.RUnlock()
+	At("mx.runlock")
+}
